@@ -445,4 +445,22 @@ def runCalls (matchReq : VersionKey → List Version → Res (List Version)) (S 
 not its first byte (a leading '@' is the scope marker of `@scope/name`). -/
 def hasRange (target : Bytes) : Bool := (target.drop 1).contains atSign
 
+/-- `strings.Split(v, ".")`. -/
+def dotComponents (v : Bytes) : List Bytes :=
+  let r := v.foldr (fun x (acc : Bytes × List Bytes) =>
+    if x = 46 then ([], acc.1 :: acc.2) else (x :: acc.1, acc.2)) ([], [])
+  r.1 :: r.2
+
+/-- classifier of F-C18-bundle-version-range: the version string a bundled package reports
+is empty or written with npm range syntax (blank, tab, `=`, `^`, `~`, `<`, `>`, `|`, `*`, or
+a component `x`/`X`). Such a string read as a requirement does not select the version
+spelled the same way through `MatchRequirement` (it parses as a range, and the range does
+not contain the string read as a version), which is the clause of `AskedOK` (`.matching` on a
+bundle: matching behaves as string equality on the single stored version) that `b5_partial`
+assumes; `APIClient.MatchingVersions` compares the two strings. -/
+def rangeSyntax (v : Bytes) : Bool :=
+  v.isEmpty ||
+  v.any (fun b => b == 32 || b == 9 || b == 61 || b == 94 || b == 126 || b == 60 || b == 62 || b == 124 || b == 42) ||
+  (dotComponents v).any (fun c => c == [120] || c == [88])
+
 end DepsDev.Model.Resolve.ApiClient
